@@ -13,11 +13,15 @@ func stateProfile() *gast.Profile {
 	p := pegProfile()
 	p.W[gast.StateCode] = 14
 	p.W[gast.Action] = 10
-	p.ActSpec = func(r *rand.Rand) mon.Spec { return mon.Spec{R: pick(r, 0, 0, 1, 3), Scr: r.Intn(3) == 0, G: r.Intn(2) == 0} }
+	p.ActSpec = func(r *rand.Rand) mon.Spec {
+		return mon.Spec{R: pick(r, 0, 0, 1, 3), Scr: r.Intn(3) == 0, G: r.Intn(2) == 0}
+	}
 	p.PredSpec = func(r *rand.Rand) mon.Spec { return mon.Spec{B: pick(r, 0, 0, 1, 3, 3, 4), Scr: r.Intn(2) == 0} }
 	p.W[gast.AndCode] = 8
 	p.W[gast.NotCode] = 5
-	p.StateSpec = func(r *rand.Rand) mon.Spec { return mon.Spec{S: 1 + r.Intn(31), G: r.Intn(2) == 0, E: pick(r, 0, 0, 0, 1)} }
+	p.StateSpec = func(r *rand.Rand) mon.Spec {
+		return mon.Spec{S: 1 + r.Intn(31), G: r.Intn(2) == 0, E: pick(r, 0, 0, 0, 1)}
+	}
 	return p
 }
 
@@ -62,7 +66,7 @@ func C10(c *Ctx) {
 		gast.Cl(&gast.ClassSpec{Chars: []rune("Ω-"), IgnoreCase: true}), gast.Li("å"))), gast.NotE(gast.Dot()))}}}
 	// the fixed shapes run under every base flag set
 	for k := 0; k < 4; k++ {
-		for _, g := range append(append(append(c05Strata(), rollbackStrata()[:20]...), c02Strata()...), fold) {
+		for _, g := range append(append(append(c05Strata(), rollbackStrata()[:20]...), c02Strata()...), append(c14Strata(), fold)...) {
 			gs = append(gs, g.Clone())
 			lr = append(lr, false)
 			xi = append(xi, k)
